@@ -5,6 +5,7 @@ PAIRS = [
       loops="loops/c10_absorb.json", need_ids=["loop_invariant_step"]),
     P("delete", "h_delete", "mi_heap_delete", ["mi_heap_absorb/c_heap_absorb_rec", "_mi_heap_collect_abandon", "mi_heap_free/c_heap_free_rec"]),
     P("destroy", "h_destroy", "mi_heap_destroy", ["_mi_heap_destroy_pages", "mi_heap_free/c_heap_free_rec", "mi_heap_delete/c_heap_delete_rec"]),
+    P("page_destroy", "h_page_destroy", "_mi_heap_page_destroy", ["_mi_page_use_delayed_free", "_mi_segment_page_free"]),
     P("heap_free", "h_heap_free", "mi_heap_free", ["_mi_heap_set_default_direct", "mi_free", "mi_prim_get_default_heap"], label="B", K=2),
 ]
 import rg_common
